@@ -399,3 +399,15 @@ impl FileStateTracker {
         v
     }
 }
+
+/// Forget all block / file bookkeeping (what a process restart does). Only for the
+/// verification harness, which runs many independent executions in one process.
+#[cfg(walrus_verif)]
+pub(super) fn verif_reset_trackers() {
+    if let Ok(mut w) = BlockStateTracker::map().write() {
+        w.clear();
+    }
+    if let Ok(mut w) = FileStateTracker::map().write() {
+        w.clear();
+    }
+}
